@@ -39,22 +39,47 @@ type call struct {
 	Inputs    []svc.InputSpec `json:"inputs,omitempty"`
 	CancelAt  int             `json:"cancel_at"`
 	Pipelined bool            `json:"pipelined,omitempty"`
-	ExtKind   string          `json:"external_kind,omitempty"` // how inputs / the request travel through external storage
+	ExtKind   string          `json:"external_kind,omitempty"`               // how inputs / the request travel through external storage
+	HdrMode   int64           `json:"fragile_header_broken_field,omitempty"` // hp_hdr / hx_hdr / hu_hdr: index of the unserialisable field (<0: none)
 }
 
 var unaryClasses = []string{"unary:value", "unary:void", "unary:error", "unary:panic", "unary:param-mismatch", "unary:unknown-method",
-	"unary:rows0", "unary:rows2", "unary:two-batches", "unary:describe", "unary:big", "unary:ext-request"}
+	"unary:rows0", "unary:rows2", "unary:two-batches", "unary:describe", "unary:big", "unary:ext-request",
+	"unary:nested-serializable-ok", "unary:nested-serializable-fails"}
 var streamClasses = []string{"stream:complete", "stream:turn-error", "stream:turn-panic", "stream:turn-none", "stream:turn-emit2", "stream:finish-variant",
 	"stream:cancel", "stream:cancel-nohook", "stream:early-eos", "stream:castable", "stream:not-castable", "stream:castfail-second",
 	"stream:init-error", "stream:init-panic", "stream:init-nil", "stream:init-badstate", "stream:param-mismatch", "stream:big",
-	"stream:ext-input", "stream:ext-input-multi", "stream:ext-input-logfirst", "stream:ext-input-missing", "stream:ext-input-loop", "stream:ext-request"}
+	"stream:ext-input", "stream:ext-input-multi", "stream:ext-input-logfirst", "stream:ext-input-missing", "stream:ext-input-loop", "stream:ext-request",
+	"stream:header-ok", "stream:header-fails-at-field-0", "stream:header-fails-at-field-1", "stream:header-fails-at-field-2"}
 var allClasses = append(append([]string{}, unaryClasses...), streamClasses...)
 
 var finishActsX = []svc.Act{svc.ActFinish, svc.ActEmitFin, svc.ActFinishRet, svc.ActFinishIgn}
 var finishActsP = []svc.Act{svc.ActEmitFin, svc.ActFinishIgn, svc.ActFinishRet, svc.ActFinish}
 
 func genCall(rg *rand.Rand, class, sid string) call {
-	c := call{Class: class, CancelAt: -1, Args: svc.GenArgs(rg)}
+	c := call{Class: class, CancelAt: -1, Args: svc.GenArgs(rg), HdrMode: -1}
+	switch class {
+	case "unary:nested-serializable-ok", "unary:nested-serializable-fails":
+		// the unary result is itself an ArrowSerializable value (wn.FragileHeader)
+		c.Method, c.Script = "hu_hdr", svc.Script{ID: sid}
+		if class == "unary:nested-serializable-fails" {
+			c.HdrMode = int64(1 + rg.IntN(2)) // an earlier field has been built by then
+		}
+		return c
+	case "stream:header-ok", "stream:header-fails-at-field-0", "stream:header-fails-at-field-1", "stream:header-fails-at-field-2":
+		c.Script = svc.Script{ID: sid}
+		c.Producer = rg.IntN(2) == 0
+		c.Method = map[bool]string{true: "hp_hdr", false: "hx_hdr"}[c.Producer]
+		if class != "stream:header-ok" {
+			c.HdrMode = int64(class[len(class)-1] - '0')
+		}
+		c.Inputs = svc.GenInputs(rg, 1+rg.IntN(3))
+		if !c.Producer {
+			c.IVariant = "exact"
+		}
+		c.Pipelined = rg.IntN(4) == 0
+		return c
+	}
 	if strings.HasPrefix(class, "unary:") {
 		c.Method = svc.UnaryMethods[rg.IntN(len(svc.UnaryMethods)-1)]
 		act := svc.ActValue
@@ -228,7 +253,7 @@ func genHist(seedRand func(stream ...uint64) *rand.Rand, i int) hist {
 	if h.Transport == "http" && h.BatchLimit == 0 && rg.IntN(2) == 0 {
 		h.BatchLimit = 1 + rg.IntN(3)
 	}
-	n := 1 + rg.IntN(6)
+	n := 1 + rg.IntN(5)
 	if i%9 == 4 {
 		h.FaultAt = rg.IntN(2600)
 		if rg.IntN(3) == 0 {
